@@ -18,6 +18,8 @@ structure Stages (fs : Files) (lines : List Str) (a : Assembly) where
   ss2 : List Stmt
   ss3 : List Stmt
   ss4 : List Stmt
+  /-- the table with every EQU defined by an expression evaluated (batch 4) -/
+  t1 : SymTab
   hparse : parseLines lines = .ok parsed
   hexpand : expand fs 64 [] parsed = .ok ss0
   hsym : buildSymTab ss0 0 [] = some t
@@ -26,7 +28,10 @@ structure Stages (fs : Files) (lines : List Str) (a : Assembly) where
   hpcr : pcrLoop (ss2.length + 1) ss2 = .ok ss3
   haddr : assignAddrs ss3 0 = .ok ss4
   hfix : fixAll ss4 0 ss4 = .ok a.stmts
-  hfinal : finalSymTab a.stmts t = .ok a.symtab
+  heval : evalSyms a.stmts t t = .ok t1
+  hfinal : finalSymTab a.stmts t1 = .ok a.symtab
+  /-- an ORG comes before the first label and the first byte (batch 5, fix for finding B1) -/
+  horg : orgOK ss3 false = true
 
 theorem assemble_stages {fs : Files} {lines : List Str} {a : Assembly} (h : assemble fs lines = .ok a) :
     Nonempty (Stages fs lines a) := by
@@ -52,18 +57,27 @@ theorem assemble_stages {fs : Files} {lines : List Str} {a : Assembly} (h : asse
             cases h5 : pcrLoop (ss2.length + 1) ss2 with
             | ok ss3 =>
               rw [h5] at h; dsimp only at h
+              cases hq : orgOK ss3 false with
+              | false => rw [hq] at h; simp at h
+              | true =>
+              rw [hq] at h
+              simp only [Bool.not_true, Bool.false_eq_true, if_false] at h
               cases h6 : assignAddrs ss3 0 with
               | ok ss4 =>
                 rw [h6] at h; dsimp only at h
                 cases h7 : fixAll ss4 0 ss4 with
                 | ok ss5 =>
                   rw [h7] at h; dsimp only at h
-                  cases h8 : finalSymTab ss5 t with
-                  | ok t' =>
-                    rw [h8] at h; dsimp only at h
-                    cases h
-                    exact ⟨⟨parsed, ss0, t, ss1, ss2, ss3, ss4, h0, h1, h2, h3, h4, h5, h6, h7, h8⟩⟩
-                  | _ => rw [h8] at h; cases h
+                  cases h9 : evalSyms ss5 t t with
+                  | ok t1 =>
+                    rw [h9] at h; dsimp only at h
+                    cases h8 : finalSymTab ss5 t1 with
+                    | ok t' =>
+                      rw [h8] at h; dsimp only at h
+                      cases h
+                      exact ⟨⟨parsed, ss0, t, ss1, ss2, ss3, ss4, t1, h0, h1, h2, h3, h4, h5, h6, h7, h9, h8, hq⟩⟩
+                    | _ => rw [h8] at h; cases h
+                  | _ => rw [h9] at h; cases h
                 | _ => rw [h7] at h; cases h
               | _ => rw [h6] at h; cases h
             | _ => rw [h5] at h; cases h
@@ -306,6 +320,17 @@ theorem finalSymTab_get {ss : List Stmt} {t t' : SymTab} (h : finalSymTab ss t =
         · exact absurd rfl hnp
         · rfl
     | _ => rw [hr] at h; cases h
+
+/-- (batch 4) the final value of a symbol of an accepted program: its entry in the table built from the labels goes
+through `evalSym` (an EQU defined by an expression is evaluated), then statement indices are replaced by addresses -/
+theorem Stages.symtab_get {fs : Files} {lines : List Str} {a : Assembly} (st : Stages fs lines a) {k : Str} {v : Value}
+    (hk : st.t.get? k = some v) :
+    ∃ v1 v', evalSym a.stmts st.t v = .ok v1 ∧ a.symtab.get? k = some v' ∧ finalVal a.stmts v1 = some v' := by
+  rcases evalSyms_get? st.heval k with ⟨hn, _⟩ | ⟨v0, v1, h0, h1, h2⟩
+  · rw [hn] at hk; cases hk
+  · rw [hk] at h0; cases h0
+    obtain ⟨v', hv', hfin⟩ := finalSymTab_get st.hfinal h2
+    exact ⟨v1, v', h1, hv', hfin⟩
 
 /-! ### pseudo operands are rewritten only for FCB / FDB / RMB / ORG -/
 
